@@ -1,7 +1,7 @@
 (* C20 driver: drv cases.txt <actions>
    <actions> = the launcher's action list extracted from the source, comma separated
                (ANotify,AStart,AWritePid,ASpawnWait,ASelect; anything else counts as AUnknown)
-   case lines: E <delay_ms> <pause_ms> <n> <i> <class> <pid_matches> <marker_at_return> <alive> <reparented> <launcher_gone> <done_at_return> <right_handler> <survived> <daemon stderr variant> [detail…]
+   case lines: E <delay_ms> <pause_ms> <n> <i> <class> <pid_matches> <marker_at_return> <alive> <reparented> <launcher_gone> <done_at_return> <right_handler> <done_nil> <survived> <daemon variant> [detail…]
                class in ok|run|stderr|stdout|other; flags 0/1 *)
 let action_of = function
   | "ANotify" -> ANotify | "AStart" -> AStart | "AWritePid" -> AWritePid
@@ -17,11 +17,11 @@ let () =
   let cases = ref 0 and specfail = ref 0 and mismatch = ref 0 in
   iter_lines Sys.argv.(1) (fun line ->
     match split_ws line with
-    | "E" :: d :: p :: _n :: _i :: cls :: pm :: mk :: al :: rp :: lg :: dr :: rh :: sv :: _variant :: _ ->
+    | "E" :: d :: p :: _n :: _i :: cls :: pm :: mk :: al :: rp :: lg :: dr :: rh :: dn :: sv :: _variant :: _ ->
         incr cases;
         let o = { o_class = class_of cls; o_pid_matches = flag pm; o_marker_at_return = flag mk;
                   o_alive = flag al; o_reparented = flag rp; o_launcher_gone = flag lg;
-                  o_done_at_return = flag dr; o_right_handler = flag rh; o_survived = flag sv } in
+                  o_done_at_return = flag dr; o_done_nil = flag dn; o_right_handler = flag rh; o_survived = flag sv } in
         let v = check_case acts (n_of_int (int_of_string d)) (n_of_int (int_of_string p)) o in
         if not v.v_spec then begin
           incr specfail; Printf.printf "SPECFAIL %s\n" line end
